@@ -489,9 +489,18 @@ const (
 	slowLimit   = 5 * time.Second
 )
 
-// waitHack waits for a handler report.  ok: it came.  hung: it did not, and for two
-// seconds on end a goroutine sat on a mutex of rest/handler (a hang of the code under
-// test).  Neither: the machine is too slow (an executor error, not an observation).
+// goroutineDump: all stacks, cut to a size a replay file can carry.
+func goroutineDump() string {
+	buf := make([]byte, 1<<16)
+	n := runtime.Stack(buf, true)
+	return string(buf[:n])
+}
+
+// waitHack waits for a handler report.  ok: it came.  hung: it did not — either for two
+// seconds on end a goroutine sat on a mutex of rest/handler, or nothing came for seven
+// seconds whatever the handler is parked on.  That is an OBSERVATION: the caller then
+// produces the Done event and reports whether ServeHTTP returns within the usual time
+// (judged by "returns at the deadline"), with the goroutine dump.
 func waitHack(acks <-chan hack) (a hack, ok, hung bool) {
 	t0 := time.Now()
 	seen := 0
@@ -510,7 +519,7 @@ func waitHack(acks <-chan hack) (a hack, ok, hung bool) {
 			seen = 0
 		}
 	}
-	return hack{}, false, false
+	return hack{}, false, true
 }
 
 func toBytes(v any) []byte {
@@ -637,8 +646,9 @@ type SeqOut struct {
 	// return; the run was cut there and the request counts as not completed.  Hung: for two
 	// seconds on end a goroutine was parked on a mutex of rest/handler meanwhile (a hang of the
 	// code under test); without that it is an executor error (machine too slow)
-	Stuck int  `json:"stuck"`
-	Hung  bool `json:"hung"`
+	Stuck int    `json:"stuck"`
+	Hung  bool   `json:"hung"`
+	Dump  string `json:"dump,omitempty"` // goroutine dump taken when a request got stuck
 	// server cases: http.Server.ReadTimeout / WriteTimeout after withTimeout(), ng.timeout
 	ReadNs  int64  `json:"read_ns"`
 	WriteNs int64  `json:"write_ns"`
@@ -918,6 +928,16 @@ loop:
 				case <-time.After(waitS):
 				}
 			}
+		}
+	}
+	if out.Stuck >= 0 {
+		// a handler action (or a start) never came back: the Done event for that request, and does
+		// ServeHTTP return within the usual time whatever the handler is parked on?
+		q := reqs[out.Stuck]
+		out.Dump = goroutineDump()
+		q.cancel()
+		if q.started && !returned(q, waitS) {
+			out.RetAtD = 0
 		}
 	}
 	// let every handler run to its end
